@@ -96,7 +96,7 @@ theorem connWalk_eq {β} (tl : TL) (f : Nat → VInst × (String × Nat × Strin
     (fun k i hi => walk_eq_flatMap _ _ (fun c => g (i, c)) (inConn tl i) (fun k' c hc => h k' i hi c hc) k) k0
 
 theorem assignPairs_verilogOf (ds : List Decl) (nl : Nl) : assignPairs ds (verilogOf nl) = [] := by
-  rw [assignPairs, verilogOf, List.flatMap_cons, pairsOf_insts]
+  rw [assignPairs, verilogOf, List.flatMap_append, pairsOf_insts, pairsOf_ports]
   rfl
 
 /-! ## the reader end points of the flat line list -/
